@@ -78,6 +78,25 @@ def parseInstr : Toks → Option (Instr × Toks)
   | "BuildList" :: n :: r => n.toNat?.map (fun n => (.buildList n, r))
   | "BuildListDyn" :: r => some (.buildListDyn, r)
   | "Neg" :: r => some (.neg, r)
+  | "Binop" :: n :: r => some (.binop n, r)
+  | "BuildKwargs" :: n :: r => n.toNat?.map (fun n => (.buildKwargs n, r))
+  | "MergeKwargs" :: n :: r => n.toNat?.map (fun n => (.mergeKwargs n, r))
+  | "UnpackList" :: n :: r => n.toNat?.map (fun n => (.unpackList n, r))
+  | "CallFunction" :: h :: n :: r => match unhexAscii h, n.toNat? with
+    | some s, some n => some (.callFunction s n, r)
+    | _, _ => none
+  | "CallMethod" :: h :: n :: r => match unhexAscii h, n.toNat? with
+    | some s, some n => some (.callMethod s n, r)
+    | _, _ => none
+  | "CallObject" :: n :: r => n.toNat?.map (fun n => (.callObject n, r))
+  | "IsUndefined" :: r => some (.isUndefined, r)
+  | "Enclose" :: h :: r => (unhexAscii h).map (fun s => (.enclose s, r))
+  | "GetClosure" :: r => some (.getClosure, r)
+  | "BuildMacro" :: h :: o :: f :: r => match unhexAscii h, o.toNat?, f.toNat? with
+    | some s, some o, some f => some (.buildMacro s o f, r)
+    | _, _, _ => none
+  | "Return" :: r => some (.ret, r)
+  | "Include" :: b :: r => some (.include_ (b == "1"), r)
   | "BuildMap" :: n :: r => n.toNat?.map (fun n => (.buildMap n, r))
   | "Add" :: r => some (.arith .add, r)
   | "Sub" :: r => some (.arith .sub, r)
@@ -98,7 +117,7 @@ def parseInstr : Toks → Option (Instr × Toks)
   | "PerformTest" :: h :: n :: r => match unhexAscii h, n.toNat? with
     | some s, some n => some (.performTest s n, r)
     | _, _ => none
-  | "PushLoop" :: r => some (.pushLoop, r)
+  | "PushLoop" :: f :: r => f.toNat?.map (fun f => (.pushLoop f, r))
   | "Iterate" :: t :: r => t.toNat?.map (fun t => (.iterate t, r))
   | "PushDidNotIterate" :: r => some (.pushDidNotIterate, r)
   | "PopFrame" :: r => some (.popFrame, r)
@@ -116,17 +135,35 @@ def parseInstr : Toks → Option (Instr × Toks)
   | "Unsupported" :: n :: r => some (.unsupported n, r)
   | _ => none
 
-partial def parseInstrs : Nat → Toks → List Instr → Option (List Instr)
-  | 0, [], acc => some acc.reverse
-  | 0, _, _ => none
+partial def parseInstrs : Nat → Toks → List Instr → Option (List Instr × Toks)
+  | 0, r, acc => some (acc.reverse, r)
   | n + 1, r, acc => match parseInstr r with
     | some (i, r) => parseInstrs n r (i :: acc)
     | none => none
 
-def parseProg (ctx : List (String × V)) (toks : Toks) : Option (St × Array Instr) :=
+/-- `K <hexname|-> N <count> <instr>…` repeated -/
+partial def parseCodes : Nat → Toks → List (String × Array Instr) → Option (List (String × Array Instr))
+  | 0, [], acc => some acc.reverse
+  | 0, _, _ => none
+  | k + 1, "K" :: name :: "N" :: n :: r, acc =>
+    match unhexAscii name, n.toNat? with
+    | some name, some n => match parseInstrs n r [] with
+      | some (is, r) => parseCodes k r ((name, is.toArray) :: acc)
+      | none => none
+    | _, _ => none
+  | _, _, _ => none
+
+/-- `C @ F <formatter> P <number of codes> <code>…`; the first code is the template itself, the
+    others are the templates it can include -/
+def parseProg (ctx : List (String × V)) (toks : Toks) : Option (St × Prog) :=
   match toks with
-  | "C" :: "@" :: "F" :: f :: "N" :: n :: r => match n.toNat? with
-    | some n => (parseInstrs n r []).map (fun is => ({ ctx := ctx, formatter := f.toNat?.getD 0 }, is.toArray))
+  | "C" :: "@" :: "F" :: f :: "P" :: k :: r => match k.toNat? with
+    | some k => match parseCodes k r [] with
+      | some codes =>
+        let prog : Prog := { codes := (codes.map (·.2)).toArray,
+                             templates := (codes.zipIdx.drop 1).map (fun p => (p.1.1, p.2)) }
+        some ({ ctx := ctx, formatter := f.toNat?.getD 0 }, prog)
+      | none => none
     | none => none
   | _ => none
 
@@ -145,14 +182,36 @@ def showRes : Except Err St → String
   | .error .outOfFuel => "unsupported:fuel"
   | .error .stack => "model-error:stack"
 
+def kindValue : String → V
+  | "u" => .undef
+  | "s" => .silent
+  | "n" => .none
+  | "l" => .seq [.int 1, .undef]
+  | "k" => .kwargs [("k", .int 1)]
+  | _ => .int 1
+
+/-- what the conversion layer of a builtin call does with arguments of the given kinds, per mode:
+    `conv-err` (an `UndefinedError` of the conversion), `body` (the body is reached) -/
+def sigLine (id kind name : String) (kinds : List String) : String :=
+  match sigOf kind name with
+  | none => s!"{id}\tno-sig"
+  | some (sig, reach) =>
+    let args := kinds.map kindValue
+    let rs := Mode.all.map (fun m => match (convCall Ops.convOnly sig args).run m with
+      | .ok _ => "body"
+      | .error .undefinedError => "conv-err"
+      | .error _ => "other-err")
+    id ++ "\t" ++ "\t".intercalate rs ++ "\t" ++ (if reach.isEmpty then "pure" else "touching")
+
 def handle (ctx : List (String × V)) (line : String) : String :=
   match line.splitOn "\t" with
+  | "sig" :: id :: kind :: name :: kinds => sigLine id kind name (kinds.filter (· != ""))
   | [_, id, _, _, _, _, _, _, prog] =>
     if prog = "-" then s!"{id}\t-" else
     match parseProg ctx (prog.splitOn " ") with
-    | some (s, code) =>
-      let rs := Mode.all.map (fun m => showRes (runVm code m 200000 s))
-      id ++ "\t" ++ "\t".intercalate rs
+    | some (s, P) =>
+      let rs := Mode.all.map (fun m => showRes (runVm Ops.exec P m 200000 s))
+      id ++ "\t" ++ "\t".intercalate rs ++ "\t" ++ (if P.inFragment then "in-fragment" else "outside")
     | none => s!"{id}\tbad-prog"
   | _ => "bad-line"
 
